@@ -1,5 +1,10 @@
 //! C16: fallible APIs over the whole usize domain (see coq/theories/Run/RunC16.v for the case
 //! language). Every usize position receives boundary values up to usize::MAX.
+// the dynamic view-term interpreter of C02 (term -> type-erased view through the REAL constructors)
+#[allow(dead_code, unused_imports, unused_macros)]
+#[path = "c02/build.rs"]
+mod view_build;
+
 use crate::guarded;
 use crate::sx::*;
 use easy_ml::interop::TensorRefMatrix;
@@ -185,9 +190,258 @@ fn mget<S: MatrixRef<i64> + MatrixMut<i64>>(view: &mut S, row: usize, col: usize
     }
 }
 
+/// op 12: every view adaptor (and composition) as the RECEIVER of the checked getters.
+/// Result: (0 (shape (probe ...))) with probe = (0 ()) absent | (0 (value)) present | (2) panic,
+/// or the first failing constructor's (1 e) / (2).
+fn adaptor_case(term: &Sx, probes: &[Vec<usize>]) -> Sx {
+    use view_build::{build, leaf_ids, AnyView, Arena, E};
+    let mut ids = vec![];
+    if !leaf_ids(term, &mut ids) {
+        return bad_case();
+    }
+    let mut sorted = ids.clone();
+    sorted.sort();
+    sorted.dedup();
+    if sorted.len() != ids.len() {
+        return bad_case();
+    }
+    let mut arena = Arena::new();
+    let view = match build(term, &mut arena) {
+        Ok(v) => v,
+        Err(failure) => return failure,
+    };
+    fn shared<S: TensorRef<E, D>, const D: usize>(view: &S, probes: &[Vec<usize>]) -> Result<(Sx, Vec<Sx>), Sx> {
+        use easy_ml::tensors::indexing::TensorAccess;
+        use easy_ml::tensors::views::TensorView;
+        let shape = view.view_shape();
+        let names = shape.map(|d| d.0);
+        let mut out = vec![];
+        for p in probes {
+            if p.len() != D {
+                return Err(bad_case());
+            }
+            let p: [usize; D] = idx_arr(p);
+            let r = guarded(|| view.get_reference(p).map(|x| x.0));
+            // every layered fallible form must give the same answer (and not panic either)
+            let acc = guarded(|| TensorAccess::from_source_order(view).try_get_reference(p).map(|x| x.0));
+            let by_name = guarded(|| {
+                TensorAccess::try_from(view, names).ok().and_then(|a| a.try_get_reference(p).map(|x| x.0))
+            });
+            let tv = guarded(|| TensorView::from(view).index_by(names).try_get_reference(p).map(|x| x.0));
+            let boxed: Box<&S> = Box::new(view);
+            let via_box = guarded(|| boxed.get_reference(p).map(|x| x.0));
+            if acc != r || by_name != r || tv != r || via_box != r {
+                return Err(inconsistent(1640));
+            }
+            match r {
+                None => out.push(panicked()),
+                Some(v) => {
+                    let inside = (0..D).all(|d| p[d] < shape[d].1);
+                    if v.is_some() != inside {
+                        // presence must be exactly "inside the reported shape"; reported as a
+                        // distinct value so that the model comparison shows it
+                        out.push(l(vec![z(3), opt(v.map(z))]));
+                    } else {
+                        out.push(ok(opt(v.map(z))))
+                    }
+                }
+            }
+        }
+        Ok((shape_sx(&shape), out))
+    }
+    fn mutable<S: TensorMut<E, D>, const D: usize>(mut view: S, probes: &[Vec<usize>]) -> Sx {
+        let (shape, out) = match shared::<S, D>(&view, probes) {
+            Ok(x) => x,
+            Err(e) => return e,
+        };
+        for (p, o) in probes.iter().zip(out.iter()) {
+            let p: [usize; D] = idx_arr(p);
+            let rm = guarded(|| view.get_reference_mut(p).map(|x| x.0));
+            let expect = match rm {
+                None => panicked(),
+                Some(v) => ok(opt(v.map(z))),
+            };
+            if &expect != o && o.list().and_then(|x| x[0].i64()) != Some(3) {
+                return inconsistent(1641);
+            }
+        }
+        ok(l(vec![shape, l(out)]))
+    }
+    fn readonly<S: TensorRef<E, D>, const D: usize>(view: S, probes: &[Vec<usize>]) -> Sx {
+        match shared::<S, D>(&view, probes) {
+            Ok((shape, out)) => ok(l(vec![shape, l(out)])),
+            Err(e) => e,
+        }
+    }
+    match view {
+        AnyView::M(m) => {
+            use view_build::fam_mut::{Dyn, DynView};
+            match m {
+                DynView::D0(v) => mutable::<Dyn<0>, 0>(v, probes),
+                DynView::D1(v) => mutable::<Dyn<1>, 1>(v, probes),
+                DynView::D2(v) => mutable::<Dyn<2>, 2>(v, probes),
+                DynView::D3(v) => mutable::<Dyn<3>, 3>(v, probes),
+                DynView::D4(v) => mutable::<Dyn<4>, 4>(v, probes),
+                DynView::D5(v) => mutable::<Dyn<5>, 5>(v, probes),
+                DynView::D6(v) => mutable::<Dyn<6>, 6>(v, probes),
+            }
+        }
+        AnyView::R(r) => {
+            use view_build::fam_ref::{Dyn, DynView};
+            match r {
+                DynView::D0(v) => readonly::<Dyn<0>, 0>(v, probes),
+                DynView::D1(v) => readonly::<Dyn<1>, 1>(v, probes),
+                DynView::D2(v) => readonly::<Dyn<2>, 2>(v, probes),
+                DynView::D3(v) => readonly::<Dyn<3>, 3>(v, probes),
+                DynView::D4(v) => readonly::<Dyn<4>, 4>(v, probes),
+                DynView::D5(v) => readonly::<Dyn<5>, 5>(v, probes),
+                DynView::D6(v) => readonly::<Dyn<6>, 6>(v, probes),
+            }
+        }
+    }
+}
+
+/// op 13: RecordTensor / RecordMatrix ::from_iter and ::from_iters::<N> over streams of records
+/// given by history tags (0 constant, 1 / 2 variables of two different WengertLists)
+fn collect_case<const D: usize>(matrix: bool, shape: &[(usize, usize)], streams: &[Vec<usize>]) -> Sx {
+    use easy_ml::differentiation::iterators::InvalidRecordIteratorError as E;
+    use easy_ml::differentiation::{Record, RecordMatrix, RecordTensor, WengertList};
+    let lists = [WengertList::<f64>::new(), WengertList::<f64>::new()];
+    // a few entries first, so that index 0 of a list is not the only variable
+    let _warm: Vec<Record<f64>> = lists.iter().map(|l| Record::variable(9.0, l)).collect();
+    let tag = |h: Option<&WengertList<f64>>| -> usize {
+        match h {
+            None => 0,
+            Some(l) if std::ptr::eq(l, &lists[0]) => 1,
+            Some(l) if std::ptr::eq(l, &lists[1]) => 2,
+            Some(_) => 99,
+        }
+    };
+    let record = |t: usize, i: usize| -> Record<f64> {
+        match t {
+            0 => Record::constant(i as f64),
+            k => Record::variable(i as f64, &lists[k - 1]),
+        }
+    };
+    let len = streams[0].len();
+    let shape_t: [(&'static str, usize); D] = shape_arr(shape);
+    fn enc_err<const DD: usize>(
+        e: &easy_ml::differentiation::iterators::InvalidRecordIteratorError<f64, DD>,
+        matrix: bool,
+        tag: &dyn Fn(Option<&easy_ml::differentiation::WengertList<f64>>) -> usize,
+    ) -> Sx {
+        use easy_ml::differentiation::iterators::InvalidRecordIteratorError as E;
+        // the Display text must name the same things as the value
+        let shown = e.to_string();
+        match e {
+            E::Empty => err(l(vec![z(0)])),
+            E::Shape { requested, length } => {
+                if !shown.contains(&length.to_string()) {
+                    return inconsistent(1652);
+                }
+                let s = requested.shape();
+                let sh: Vec<(usize, usize)> = if matrix {
+                    vec![(0, s[0].1), (1, s[1].1)]
+                } else {
+                    s.iter().map(|d| (undim(d.0), d.1)).collect()
+                };
+                err(l(vec![z(1), l(sh.iter().map(|d| l(vec![z(d.0), z(d.1)])).collect()), z(*length)]))
+            }
+            E::InconsistentHistory(h) => err(l(vec![z(2), z(tag(h.first)), z(tag(h.later))])),
+        }
+    }
+    macro_rules! results {
+        ($ty:ident, $cty:ty, $dd:tt, $size:expr, |$cv:ident| $view_shape:expr) => {{
+            let enc = |r: Result<$cty, E<f64, $dd>>| -> Sx {
+                match r {
+                    Ok($cv) => ok(l(vec![$view_shape, z(tag($cv.history()))])),
+                    Err(e) => enc_err::<$dd>(&e, matrix, &tag),
+                }
+            };
+            let mut out: Vec<Sx> = vec![];
+            match streams.len() {
+                1 => {
+                    let a = guarded(|| $ty::from_iters::<_, 1>($size, (0..len).map(|i| [record(streams[0][i], i)])));
+                    let Some([a]) = a else { return panicked() };
+                    out.push(enc(a));
+                }
+                2 => {
+                    let a = guarded(|| {
+                        $ty::from_iters::<_, 2>($size, (0..len).map(|i| [record(streams[0][i], i), record(streams[1][i], i)]))
+                    });
+                    let Some([a, b]) = a else { return panicked() };
+                    out.push(enc(a));
+                    out.push(enc(b));
+                }
+                _ => {
+                    let a = guarded(|| {
+                        $ty::from_iters::<_, 3>(
+                            $size,
+                            (0..len).map(|i| [record(streams[0][i], i), record(streams[1][i], i), record(streams[2][i], i)]),
+                        )
+                    });
+                    let Some([a, b, c]) = a else { return panicked() };
+                    out.push(enc(a));
+                    out.push(enc(b));
+                    out.push(enc(c));
+                }
+            }
+            // every stream on its own through from_iter must give the same answer
+            for (k, t) in streams.iter().enumerate() {
+                let one = guarded(|| $ty::from_iter($size, (0..len).map(|i| record(t[i], i))));
+                let Some(one) = one else { return panicked() };
+                if enc(one) != out[k] {
+                    return inconsistent(1650);
+                }
+            }
+            l(out)
+        }};
+    }
+    if matrix {
+        use easy_ml::matrices::views::MatrixRef;
+        if D != 2 {
+            return bad_case();
+        }
+        let size = (shape[0].1, shape[1].1);
+        results!(RecordMatrix, RecordMatrix<'_, f64, Matrix<(f64, usize)>>, 2, size, |c| l(vec![
+            l(vec![z(0), z(c.view_rows())]),
+            l(vec![z(1), z(c.view_columns())])
+        ]))
+    } else {
+        results!(RecordTensor, RecordTensor<'_, f64, Tensor<(f64, usize), D>, D>, D, shape_t, |c| shape_sx(&c.view_shape()))
+    }
+}
+
 pub fn run(args: &[Sx]) -> Sx {
     let Some(op) = args.first().and_then(|x| x.i64()) else { return bad_case() };
     match (op, args.len()) {
+        (13, 4) => {
+            let (Some(kind), Some(shape), Some(streams)) = (
+                args[1].bool(),
+                args[2].pairs_usize(),
+                args[3].list().and_then(|v| v.iter().map(|x| x.usizes()).collect::<Option<Vec<_>>>()),
+            ) else {
+                return bad_case();
+            };
+            let n = streams.len();
+            if n == 0 || n > 3 || streams.iter().any(|t| t.len() != streams[0].len() || t.iter().any(|&h| h > 2)) || streams[0].len() > 4096 {
+                return bad_case();
+            }
+            if kind {
+                if shape.len() != 2 || shape[0].0 != 0 || shape[1].0 != 1 {
+                    return bad_case();
+                }
+                collect_case::<2>(true, &shape, &streams)
+            } else {
+                crate::with_d!(shape.len(), collect_case(false, &shape, &streams))
+            }
+        }
+        (12, 3) => {
+            let Some(probes) = args[2].list().and_then(|p| p.iter().map(|x| x.usizes()).collect::<Option<Vec<_>>>()) else {
+                return bad_case();
+            };
+            adaptor_case(&args[1], &probes)
+        }
         (1, 3) => {
             let (Some(shape), Some(len)) = (args[1].pairs_usize(), args[2].usize()) else { return bad_case() };
             if len > 1 << 16 {
